@@ -2,7 +2,7 @@
    Full-strength statement: C05 (see DESIGN.md section 7) (Cluster/Statements.v). Proved so far: the theorems below; what is
    not yet proved is decided on every run by the lock-step co-simulation (model = implementation on every
    explored schedule) together with the monitors run on the implementation's own observations. *)
-From RaftV Require Import Cluster.Statements Proofs.RVSpec Proofs.AESpec Proofs.ReadSpec.
+From RaftV Require Import Cluster.Statements Proofs.RVSpec Proofs.AESpec Proofs.ReadSpec Proofs.LeaseSpec.
 Open Scope N_scope.
 
 (* becomeFollower (every term change, every step-down) never touches the commit index, the applied index, the
@@ -25,3 +25,15 @@ Theorem C05_read_only_loop_spec : forall now n x,
      \/ snd x = FInvalidLease /\ ro_type o = OLease /\ n_lease n <= now).
 Proof. exact lp_ro_spec. Qed.
 Print Assumptions C05_read_only_loop_spec.
+
+(* The lease (and the verification of pending linearizable reads, which happens in the same call) is extended only when
+   the reply of a VOTING member to a request of the CURRENT term completes the majority of its heartbeat round - or
+   the node steps down (fixes D1, D5, D22). *)
+Theorem C05_lease_extended_only_by_a_voter_majority_of_the_current_term : forall now n rid peer g q r,
+  let n' := fst (l_ae_reply now n rid peer g q r) in
+  n_lease n' <> n_lease n ->
+  n_term n < aer_term r \/
+  (is_voter (conf_of n) peer = true /\ ae_term q = n_term n /\ n_role n = Leader /\
+   has_quorum (conf_of n) (round_count (bump_round n rid) rid) = true /\ n_lease n' = now + n_ld n).
+Proof. exact ae_reply_lease. Qed.
+Print Assumptions C05_lease_extended_only_by_a_voter_majority_of_the_current_term.
